@@ -407,8 +407,9 @@ def readable(repo, mh, revids):
     return None
 
 
-def check_clean(repo):
-    """Run the repository consistency check; returns a problem string or None."""
+def check_clean(repo, unreferenced=False):
+    """Run the repository consistency check; returns a problem string or None.
+    unreferenced=True also reports text versions no inventory refers to."""
     try:
         res = repo.check()
     except Exception as e:  # noqa: BLE001
@@ -426,6 +427,8 @@ def check_clean(repo):
         probs.append(f"bad parents in revision index {res.revs_with_bad_parents_in_index[:3]}")
     if res._report_items:
         probs.append(f"check items {res._report_items[:3]}")
+    if unreferenced and res.unreferenced_versions:
+        probs.append(f"unreferenced text versions {sorted(res.unreferenced_versions)[:3]}")
     return "; ".join(probs) or None
 
 
@@ -1034,7 +1037,7 @@ class DagBuilder:
             make_shared_repo(url, fmt)
 
     def branch_url(self, name):
-        return self.url + "b_" + name
+        return getattr(self, "urls", {}).get(name) or self.url + "b_" + name
 
     def repo_urls(self):
         if self.layout == "shared":
@@ -1058,12 +1061,32 @@ class DagBuilder:
         return wt
 
     def _ensure_revs(self, repo, revids):
-        if self.layout == "shared":
-            return
+        """Fetch parents the repository lacks: from the per-branch repositories of this
+        builder (layout "separate") or from `self.sources` (branch URLs, opened with
+        their fallbacks)."""
         for r in revids:
-            if r in self.home and not repo.has_revision(r.encode()):
+            if repo.has_revision(r.encode()):
+                continue
+            if self.layout == "separate" and r in self.home:
                 src = open_repo(self.branch_url(self.home[r]))
                 repo.fetch(src, revision_id=r.encode())
+                continue
+            for u in getattr(self, "sources", ()):
+                src = open_branch(u).repository
+                if src.has_revision(r.encode()):
+                    repo.fetch(src, revision_id=r.encode())
+                    break
+
+    def adopt(self, name, branch):
+        """Use an existing branch (e.g. a stacked one) under `name`: commits of specs
+        with that branch name go into it through a new lightweight checkout."""
+        import os
+
+        path = os.path.join(self.scratch, f"{self.tag}_{name}")
+        self.urls = getattr(self, "urls", {})
+        self.urls[name] = branch.base
+        self.wts[name] = branch.create_checkout(path, lightweight=True)
+        return self.wts[name]
 
     def _create(self, name, p0):
         import os
